@@ -421,9 +421,57 @@ def gen_c09_scans(ctx):
              {q for q, _ in w} <= allowed, detail=str(w))
 
 
+def gen_rounds_protocol(ctx):
+    """A-rounds (used by the Scottish breakTie contract): E.rounds[n] is the copy of the candidates taken when round
+    n+1 began, and len(E.rounds) == E.round"""
+    repo = ctx.repo
+    P = ['C07', 'C03', 'C11']
+    writers, appends = [], []
+    for fn in repo.all_functions():
+        for n in own_walk(fn.node):
+            if isinstance(n, ast.Attribute) and n.attr == 'rounds' and isinstance(n.ctx, ast.Store):
+                writers.append(fn.qualname)
+            if isinstance(n, ast.Call) and isinstance(n.func, ast.Attribute) and isinstance(n.func.value, ast.Attribute) \
+                    and n.func.value.attr == 'rounds' and n.func.attr not in ('__getitem__', 'index', 'count', 'copy'):
+                appends.append((fn.qualname, n.func.attr, norm_src(n)))
+    scan(ctx, P, 'droop/**/*.py', 'rounds-writers', 'E.rounds is created empty by Election.__init__ and changed only by ElectionRecord.action',
+         writers == ['droop.election.Election.__init__'] and
+         [(a, b) for a, b, _ in appends] == [('droop.record.ElectionRecord.action', 'append')],
+         detail='%s %s' % (writers, appends))
+    act = repo.resolve('droop.record.ElectionRecord.action')
+    ok = False
+    if act is not None:
+        for n in ast.walk(act.node):
+            if isinstance(n, ast.If) and norm_src(n.test) == "tag == 'round'" and len(n.body) == 1 and not n.orelse \
+                    and norm_src(n.body[0]) == 'E.rounds.append(C.copy())':
+                ok = True
+    scan(ctx, P, 'droop.record.ElectionRecord.action', 'rounds-append', "a copy of the candidates is saved exactly when a 'round' action is recorded",
+         ok)
+    cp = repo.resolve('droop.candidates.Candidates.copy')
+    ok = cp is not None and 'copy.copy(c)' in norm_src(cp.node) and 'for c in self' in norm_src(cp.node)
+    scan(ctx, P, 'droop.candidates.Candidates.copy', 'rounds-copy', 'Candidates.copy() holds a shallow copy of every candidate (tally, id and ballot order as they were)', ok)
+    nr = repo.resolve('droop.election.Election.newRound')
+    body = [norm_src(x) for x in nr.node.body if not (isinstance(x, ast.Expr) and isinstance(x.value, ast.Constant))] if nr else []
+    scan(ctx, P, 'droop.election.Election.newRound', 'rounds-newround', "newRound() adds one to E.round and records one 'round' action",
+         body == ['self.round += 1', "self.logAction('round', 'New Round')"], detail=str(body))
+    rw = []
+    for fn in repo.all_functions():
+        for n in own_walk(fn.node):
+            if isinstance(n, (ast.Assign, ast.AugAssign)):
+                for t in (n.targets if isinstance(n, ast.Assign) else [n.target]):
+                    if isinstance(t, ast.Attribute) and t.attr == 'round' and fn.qualname.startswith('droop.'):
+                        rw.append(fn.qualname)
+            if isinstance(n, ast.Call) and isinstance(n.func, ast.Attribute) and n.func.attr == 'logAction' and n.args \
+                    and isinstance(n.args[0], ast.Constant) and n.args[0].value == 'round' and fn.qualname != 'droop.election.Election.newRound':
+                rw.append('logs round: ' + fn.qualname)
+    scan(ctx, P, 'droop/**/*.py', 'rounds-round-writers', "E.round is written only by Election.__init__ and newRound(); nothing else records a 'round' action",
+         sorted(set(rw)) == ['droop.election.Election.__init__', 'droop.election.Election.newRound'], detail=str(sorted(set(rw))))
+
+
 def gen_c07_scans(ctx):
     repo = ctx.repo
     P = ['C07']
+    gen_rounds_protocol(ctx)
     reads = []
     for mn, m in repo.modules.items():
         for fn in [f for f in repo.all_functions() if f.module is m]:
@@ -875,8 +923,8 @@ GENERATORS = {
     'C15': [gen_c16],
     'C19': [gen_c19_scans],
     'C10': [gen_c10_scans],
-    'C11': [gen_c11_scans, gen_select_conformance],
-    'C03': [gen_c03_scans],
+    'C11': [gen_c11_scans, gen_select_conformance, gen_rounds_protocol],
+    'C03': [gen_c03_scans, gen_rounds_protocol],
     'C08': [gen_c08_scans],
     'C07': [gen_c07_scans, gen_select_conformance],
     'C06': [gen_c09_scans, gen_c03_scans],
